@@ -35,6 +35,7 @@ import (
 	"github.com/furiko-io/furiko/pkg/core/validation"
 	"github.com/furiko-io/furiko/pkg/execution/util/cron"
 	"github.com/furiko-io/furiko/pkg/execution/util/jobconfig"
+	"github.com/furiko-io/furiko/pkg/execution/util/parallel"
 	executionlister "github.com/furiko-io/furiko/pkg/generated/listers/execution/v1alpha1"
 	"github.com/furiko-io/furiko/pkg/runtime/controllercontext"
 )
@@ -473,9 +474,33 @@ func (v *Validator) ValidateParallelismSpec(spec *v1alpha1.ParallelismSpec, fldP
 		allErrs = append(allErrs, field.Required(fldPath, "must specify a parallelism type"))
 	}
 
+	// Every index must have its own identity, otherwise two indexes would share
+	// the same task name and status slot.
+	if len(allErrs) == 0 {
+		first, second, hash, err := parallel.FindHashCollision(spec)
+		if err != nil {
+			allErrs = append(allErrs, field.InternalError(fldPath, err))
+		} else if first != nil && second != nil {
+			detail := fmt.Sprintf("parallel indexes %v and %v cannot be told apart (both have index hash %v)",
+				formatParallelIndex(*first), formatParallelIndex(*second), hash)
+			allErrs = append(allErrs, field.Invalid(fldPath, formatParallelIndex(*second), detail))
+		}
+	}
+
 	allErrs = append(allErrs, v.ValidateParallelCompletionStrategy(spec.CompletionStrategy, fldPath.Child("completionStrategy"))...)
 
 	return allErrs
+}
+
+func formatParallelIndex(index v1alpha1.ParallelIndex) string {
+	switch {
+	case index.IndexNumber != nil:
+		return fmt.Sprintf("%d", *index.IndexNumber)
+	case index.IndexKey != "":
+		return fmt.Sprintf("%q", index.IndexKey)
+	default:
+		return fmt.Sprintf("%v", index.MatrixValues)
+	}
 }
 
 func (v *Validator) validateParallelismSpecWithMatrix(
